@@ -5,7 +5,7 @@ import e2e_common as E
 
 
 def run(ctx):
-    traces = ctx.e2e(E.plan(ctx, [("handshake", 40), ("attack", 6), ("lossy", 4)]))
+    traces = ctx.e2e(E.plan(ctx, [("handshake", 40), ("rebind_close", 12), ("cid", 3), ("attack", 6), ("lossy", 4)]))
     ctx.validate_families(traces, "Trace_Amplification", E.AMP_KINDS, primary_only=False)
     ctx.assume("server budget per connection: bytes of datagrams the connection received / sent (connection events); validation = first Handshake packet processed by that server connection; Retry/token validation is not exercised")
     ctx.assume("server datagrams are attributed to connection datagrams or endpoint-level replies (stateless reset, version negotiation) by their order of hand-off to the socket; unroutable datagrams are the ones the server endpoint reports as dropped")
